@@ -43,7 +43,7 @@ false for cap 0).
 
 All interleavings = all `List Event` accepted by `run?`.  Core Lean only (linked into `c17d`).
 -/
-namespace Compio.Pool
+namespace Compio.Asyncify
 
 /-- what a job does when run: returns a value; panics inside the drivers' `catch_unwind_io`
 wrapper (carried as `io::Error`); panics uncaught (raw `dispatch` user) and kills the worker -/
@@ -558,4 +558,4 @@ def quiesce : Nat → State → List Event × State
 /-- enough fuel for `quiesce`: every worker makes at most three internal steps -/
 def quiesceFuel (s : State) : Nat := 3 * s.nw + 1
 
-end Compio.Pool
+end Compio.Asyncify
